@@ -20,6 +20,25 @@
 (* NamespacesConsistent, SearchExact (the set algebra over tag2ids selects *)
 (* exactly the series whose tags satisfy the predicate; regular            *)
 (* expressions match UNANCHORED, an absent tag is the empty string).       *)
+(*                                                                         *)
+(* HISTORY INDEPENDENCE. A search is a function of (index contents,        *)
+(* predicate) ONLY. The implementation serves searches from pooled         *)
+(* searcher objects (indexSearchPool, indexSearch.tfs) which carry fields  *)
+(* from one search to the next; sflag models what such an object carries   *)
+(* (the isAllMatch flag of its tag filter). The design overwrites it       *)
+(* before it is read: HistoryIndependent says no result depends on it, and *)
+(* SearchExact is checked in every state, i.e. after every sequence of     *)
+(* earlier searches.                                                       *)
+(*                                                                         *)
+(* MULTIPLICITY. A series of the model stands for mult[id] concrete series *)
+(* (members <<id, j>>, j < mult[id]) that differ in one extra tag XKey     *)
+(* only (value j; no extra tag when mult[id] = 1). The set semantics are   *)
+(* unchanged, every result is a set of members. The tag->ids items of one  *)
+(* tag value are stored as rows of at most RowCap ids (64 in the code,     *)
+(* consolidated by flush/merge); the universe stays small (RowCap = 2 in   *)
+(* the exhaustive runs), the replay uses RowCap = 64 and multiplicities    *)
+(* around it. ListingsExact covers listings WITH a condition               *)
+(* (searchTagValuesBySingleKey walks the rows of each value).              *)
 (***************************************************************************)
 EXTENDS Integers, Sequences, FiniteSets, TLC, SequencesExt, FiniteSetsExt
 
@@ -28,16 +47,22 @@ CONSTANTS Msts,       \* measurement names
           Vals,       \* tag values: sequences of characters, <<>> = the EMPTY value
           Regexes,    \* regular expressions: sequences of items (see ItemEnds)
           CheckPreds, \* predicates over which SearchExact is checked in every state
+          ListPreds,  \* conditions over which the conditional listings are checked in every state
           MaxSeries,  \* bound on distinct series
           MaxPerMst,  \* bound on series per measurement
           MaxReopen,  \* bound on Close/Reopen cycles
           Depth,      \* actions per behaviour
+          Mults,      \* multiplicities a series may have (number of concrete series it stands for)
+          RowCap,     \* ids per tag->ids row (mergeindex.MaxTSIDsPerRow)
+          XVals,      \* values of the extra tag mentioned by predicates (-1 = the empty string)
           Dev         \* deviations; {} = the design
 
-VARIABLES open, key2id, id2key, tag2ids, pending, cache, nextId, nReopen, hist
+VARIABLES open, key2id, id2key, tag2ids, pending, cache, nextId, nReopen, hist,
+          mult,       \* id -> multiplicity of the series
+          sflag       \* what the pooled searcher carries over from the searches before (isAllMatch of its filter)
 
-vars == <<open, key2id, id2key, tag2ids, pending, cache, nextId, nReopen, hist>>
-view == <<open, key2id, id2key, tag2ids, pending, cache, nextId, nReopen>>
+vars == <<open, key2id, id2key, tag2ids, pending, cache, nextId, nReopen, hist, mult, sflag>>
+view == <<open, key2id, id2key, tag2ids, pending, cache, nextId, nReopen, mult, sflag>>
 
 -----------------------------------------------------------------------------
 \* ---- characters and strings (sequences of one-character strings) ----------
@@ -184,13 +209,17 @@ TV(k, x) == IF k.t[x] = NoTag THEN <<>> ELSE k.t[x]
 
 \* ---- predicates ------------------------------------------------------------
 \* <<"=",k,v>> <<"!=",k,v>> <<"=~",k,r>> <<"!~",k,r>> <<"AND",p,q>> <<"OR",p,q>> <<"P",p>> (parentheses)
-\* <<"TRUE">> (no condition)
-RECURSIVE Eval(_, _)
-Eval(p, k) ==
-  CASE p[1] = "AND" -> Eval(p[2], k) /\ Eval(p[3], k)
-    [] p[1] = "OR"  -> Eval(p[2], k) \/ Eval(p[3], k)
-    [] p[1] = "P"   -> Eval(p[2], k)
+\* <<"TRUE">> (no condition)   <<"n=",j>> <<"n!=",j>> the extra tag (in)equal to j (-1 = the empty string)
+\* xv = value of the extra tag of the member (-1 when it has none)
+XKey == "n"
+RECURSIVE Eval(_, _, _)
+Eval(p, k, xv) ==
+  CASE p[1] = "AND" -> Eval(p[2], k, xv) /\ Eval(p[3], k, xv)
+    [] p[1] = "OR"  -> Eval(p[2], k, xv) \/ Eval(p[3], k, xv)
+    [] p[1] = "P"   -> Eval(p[2], k, xv)
     [] p[1] = "TRUE" -> TRUE                      \* no WHERE clause
+    [] p[1] = "n="  -> xv = p[2]
+    [] p[1] = "n!=" -> xv # p[2]
     [] p[1] = "="   -> TV(k, p[2]) = p[3]
     [] p[1] = "!="  -> TV(k, p[2]) # p[3]
     [] p[1] = "=~"  -> TV(k, p[2]) \in MatchSet[p[3]]
@@ -203,22 +232,35 @@ AllIds       == {it[1] : it \in id2key}
 KeyOf(id)    == (CHOOSE it \in id2key : it[1] = id)[2]
 TagItems(k, id) == {<<k.m, x, k.t[x], id>> : x \in {y \in TKeys : k.t[y] # NoTag}} \cup {<<k.m, "", <<>>, id>>}
 
+\* members: the concrete series a series of the model stands for; every search result is a set of members
+Members(id)  == {<<id, j>> : j \in 0..(mult[id] - 1)}
+Conc(ids)    == UNION {Members(id) : id \in ids}
+XVal(c)      == IF mult[c[1]] = 1 THEN -1 ELSE c[2]      \* the extra tag of a member (-1: none)
+
 \* searches read flushed items only
 Flushed == {it \in tag2ids : it[4] \notin pending}
-AllM(m)        == {it[4] : it \in {x \in Flushed : x[1] = m /\ x[2] = ""}}
-Has(m, k)      == {it[4] : it \in {x \in Flushed : x[1] = m /\ x[2] = k}}
-WithVal(m, k, S) == {it[4] : it \in {x \in Flushed : x[1] = m /\ x[2] = k /\ x[3] \in S}}
+AllM(m)        == Conc({it[4] : it \in {x \in Flushed : x[1] = m /\ x[2] = ""}})
+Has(m, k)      == Conc({it[4] : it \in {x \in Flushed : x[1] = m /\ x[2] = k}})
+WithVal(m, k, S) == Conc({it[4] : it \in {x \in Flushed : x[1] = m /\ x[2] = k /\ x[3] \in S}})
+\* the items of the extra tag (implied by mult: one item per member of a series with mult > 1)
+XEq(m, j) == {c \in AllM(m) : XVal(c) = j}
 
-NIL == {-1}      \* "no result" of a filter (a nil set in search.go), distinct from the empty set
+NIL == {<<-1, -1>>}      \* "no result" of a filter (a nil set in search.go), distinct from the empty set
 
 \* One leaf, by set algebra over the tag->ids items. dv = deviations in force.
 EqSet(m, k, v) == IF v = <<>> THEN AllM(m) \ Has(m, k) ELSE WithVal(m, k, {v})
 ReSet(m, k, r) == WithVal(m, k, MatchSet[r]) \cup (IF r \in EmptyOK THEN AllM(m) \ Has(m, k) ELSE {})
 
-Leaf(dv, path, m, p) ==
+\* f = the flag carried by the pooled searcher that serves the search. Only the tag filters of the SELECT
+\* path live in pooled objects (indexSearch.tfs); the SHOW path builds a fresh filter per leaf.
+\* Deviation stale_allmatch_flag: tagFilter.Init does not clear isAllMatch, so a regex leaf served by a
+\* searcher whose earlier search had an empty-matching regex is treated as all-match.
+Leaf(dv, path, m, p, f) ==
   LET o == p[1]
       k == p[2]
-  IN CASE o = "="  -> EqSet(m, k, p[3])
+  IN CASE o = "n="  -> XEq(m, p[2])
+       [] o = "n!=" -> AllM(m) \ XEq(m, p[2])
+       [] o = "="  -> EqSet(m, k, p[3])
        [] o = "!=" -> IF "neq_absent_nonmatch" \in dv
                         THEN Has(m, k) \ EqSet(m, k, p[3])        \* mutation seed
                         ELSE AllM(m) \ EqSet(m, k, p[3])
@@ -228,6 +270,7 @@ Leaf(dv, path, m, p) ==
                 esc == "C" \in dv
                 nt  == IF r \in EmptyOK THEN AllM(m) \ Has(m, k) ELSE {}   \* series without the tag
                 pos == IF c = "ok" THEN ReSet(m, k, r)                      \* rewritten into (in)equalities
+                       ELSE IF "stale_allmatch_flag" \in dv /\ path = "sel" /\ f THEN AllM(m)
                        ELSE IF c = "E" /\ "E" \in dv THEN AllM(m)           \* isAllMatch
                        ELSE IF c = "P" \/ (c \in dv /\ c # "E") THEN WithVal(m, k, ImplSet[esc][r]) \cup nt
                        ELSE WithVal(m, k, MatchSetE[esc][r]) \cup nt
@@ -236,29 +279,56 @@ Leaf(dv, path, m, p) ==
                ELSE IF "N" \in dv /\ path = "show" /\ r \in EmptyOK /\ neg = {} THEN NIL
                ELSE neg
 
-RECURSIVE Alg(_, _, _, _)
-Alg(dv, path, m, p) ==
-  CASE p[1] = "P" -> Alg(dv, path, m, p[2])
+RECURSIVE Alg(_, _, _, _, _)
+Alg(dv, path, m, p, f) ==
+  CASE p[1] = "P" -> Alg(dv, path, m, p[2], f)
     [] p[1] = "TRUE" -> AllM(m)
     [] p[1] \in {"AND", "OR"} ->
-         LET l == Alg(dv, path, m, p[2])
-             r == Alg(dv, path, m, p[3])
+         LET l == Alg(dv, path, m, p[2], f)
+             r == Alg(dv, path, m, p[3], f)
          IN IF l = NIL THEN r
             ELSE IF r = NIL THEN l
             ELSE IF p[1] = "AND" \/ "or_as_and" \in dv THEN l \cap r
             ELSE l \cup r
-    [] OTHER -> Leaf(dv, path, m, p)
+    [] OTHER -> Leaf(dv, path, m, p, f)
 
-Search(dv, path, m, p) == LET s == Alg(dv, path, m, p) IN IF s = NIL THEN {} ELSE s
+\* the search served by a searcher carrying f / by the pooled searcher in its current state
+SearchF(dv, path, m, p, f) == LET s == Alg(dv, path, m, p, f) IN IF s = NIL THEN {} ELSE s
+Search(dv, path, m, p)     == SearchF(dv, path, m, p, sflag)
 
-\* brute force: the definition of "selects exactly"
+\* brute force: the definition of "selects exactly" (a function of the index contents and the predicate)
 Searchable(m) == {id \in AllIds \ pending : KeyOf(id).m = m}
-Brute(m, p)   == {id \in Searchable(m) : Eval(p, KeyOf(id))}
+Brute(m, p)   == {c \in Conc(Searchable(m)) : Eval(p, KeyOf(c[1]), XVal(c))}
 
-\* listings derived from a search result
-ShowSeries(ids)   == {KeyOf(id) : id \in ids}
-TagKeysOf(ids)    == {x \in TKeys : \E id \in ids : KeyOf(id).t[x] # NoTag}
-TagValuesOf(ids, x) == {KeyOf(id).t[x] : id \in {i \in ids : KeyOf(i).t[x] # NoTag}}
+\* listings derived from a search result (a set of members)
+SeriesOf(sel)     == {c[1] : c \in sel}
+ShowSeries(sel)   == {KeyOf(id) : id \in SeriesOf(sel)}
+TagKeysOf(sel)    == {x \in TKeys : \E id \in SeriesOf(sel) : KeyOf(id).t[x] # NoTag}
+                     \cup (IF \E c \in sel : XVal(c) # -1 THEN {XKey} ELSE {})
+TagValuesOf(sel, x) == {KeyOf(id).t[x] : id \in {i \in SeriesOf(sel) : KeyOf(i).t[x] # NoTag}}
+XValuesOf(sel)    == {XVal(c) : c \in sel} \ {-1}
+
+\* ---- tag-value listing WITH a condition (searchTagValuesBySingleKey) ----------------------------------
+\* The members owning one tag value, in id order, are stored RowCap per row (rows consolidated by
+\* flush/merge). The listing walks the rows of every value and reports the value when a row holds an
+\* eligible member. Deviation cond_listing_first_row: after a FULL row the scan jumps to the next value
+\* even when that row held no eligible member (the later rows of the value are never looked at).
+Owners(m, x, v) == WithVal(m, x, {v})
+Precedes(d, c)  == d[1] < c[1] \/ (d[1] = c[1] /\ d[2] < c[2])
+FirstRow(S)     == {c \in S : Cardinality({d \in S : Precedes(d, c)}) < RowCap}
+CondTagValues(dv, m, x, elig) ==
+  {v \in NonEmptyVals :
+     LET o == Owners(m, x, v)
+     IN (IF "cond_listing_first_row" \in dv THEN FirstRow(o) ELSE o) \cap elig # {}}
+
+\* compact, exact encoding of a set of members for the history: ids = series selected with all their
+\* members; part = the others that are touched, as (all but js) or (only js)
+FullIds(sel) == {id \in SeriesOf(sel) : Members(id) \subseteq sel}
+PartOf(sel)  ==
+  SetToSeq({LET js == {c[2] : c \in {d \in sel : d[1] = id}}
+            IN IF 2 * Cardinality(js) > mult[id]
+                 THEN [id |-> id, all |-> 1, js |-> (0..(mult[id] - 1)) \ js]
+                 ELSE [id |-> id, all |-> 0, js |-> js] : id \in SeriesOf(sel) \ FullIds(sel)})
 
 -----------------------------------------------------------------------------
 \* ---- deviation classes present in a predicate (for the per-subset predictions) ------------------
@@ -284,21 +354,29 @@ Predictions(path, m, p) ==
   LET cs   == LeafClasses(p, path)
       want == Search({}, path, m, p)
       subs == {d \in SUBSET cs : d # {} /\ Search(d, path, m, p) # want}
-  IN SetToSeq({[d |-> ClassStr(d), ids |-> Search(d, path, m, p)] : d \in subs})
+  IN SetToSeq({[d |-> ClassStr(d), ids |-> FullIds(Search(d, path, m, p)),
+                part |-> PartOf(Search(d, path, m, p))] : d \in subs})
 
 -----------------------------------------------------------------------------
 \* ---- observation / history -------------------------------------------------
-IdTable == SetToSeq({[k |-> it[1], id |-> it[2]] : it \in key2id})
+IdTable == SetToSeq({[k |-> it[1], id |-> it[2], n |-> mult[it[2]]] : it \in key2id})
 \* ids an as-implemented lookup can find: cached, or flushed (deviation lookup_misses_pending)
 VisibleIds == {it[2] : it \in {x \in key2id : x \in cache \/ x[2] \notin pending}}
 
 Log(a, args, extra) ==
   hist' = Append(hist, [a |-> a, args |-> args,
                         exp |-> [ids |-> IdTable', vis |-> VisibleIds', x |-> extra]])
+Same == UNCHANGED <<mult, sflag>>
 
 -----------------------------------------------------------------------------
+\* overridden by the cfg files
+CreateChoices == RawKeys
+BatchChoices  == {}
+MultChoices   == Mults
+
 Init == /\ open = TRUE /\ key2id = {} /\ id2key = {} /\ tag2ids = {} /\ pending = {}
         /\ cache = {} /\ nextId = [clock |-> 1, seq |-> 0] /\ nReopen = 0 /\ hist = <<>>
+        /\ mult = <<>> /\ sflag = FALSE
 
 \* getSeriesIdBySeriesKey: cache, then the item store. The design requires the store lookup to see
 \* pending items (otherwise a cache drop inside the flush lag duplicates the series).
@@ -321,8 +399,8 @@ Create(raw) ==
      /\ IF found # {}
           THEN LET id == (CHOOSE it \in found : \A o \in found : it[2] <= o[2])[2]
                IN /\ cache' = cache \cup {<<k, id>>}
-                  /\ UNCHANGED <<key2id, id2key, tag2ids, pending, nextId>>
-                  /\ Log("Create", raw, [id |-> id, new |-> 0, dup |-> dup])
+                  /\ UNCHANGED <<key2id, id2key, tag2ids, pending, nextId, mult>>
+                  /\ Log("Create", raw, [id |-> id, new |-> 0, dup |-> dup, n |-> mult[id]])
           ELSE /\ Cardinality(AllIds) < MaxSeries
                /\ Cardinality({id \in AllIds : KeyOf(id).m = k.m}) < MaxPerMst
                /\ key2id' = key2id \cup {<<k, NewId>>}
@@ -332,26 +410,28 @@ Create(raw) ==
                /\ pending' = pending \cup {NewId}
                /\ cache' = cache \cup {<<k, NewId>>}
                /\ nextId' = [nextId EXCEPT !.seq = @ + 1]
-               /\ Log("Create", raw, [id |-> NewId, new |-> 1, dup |-> 0])
-     /\ UNCHANGED <<open, nReopen>>
+               /\ \E n \in MultChoices :
+                    /\ mult' = [i \in DOMAIN mult \cup {NewId} |-> IF i = NewId THEN n ELSE mult[i]]
+                    /\ Log("Create", raw, [id |-> NewId, new |-> 1, dup |-> 0, n |-> n])
+     /\ UNCHANGED <<open, nReopen, sflag>>
 
 IndexFlush ==
   /\ open /\ pending # {}
   /\ pending' = {}
-  /\ UNCHANGED <<open, key2id, id2key, tag2ids, cache, nextId, nReopen>>
+  /\ UNCHANGED <<open, key2id, id2key, tag2ids, cache, nextId, nReopen>> /\ Same
   /\ Log("IndexFlush", <<>>, <<>>)
 
 ClearCache ==
   /\ open /\ cache # {}
   /\ cache' = {}
-  /\ UNCHANGED <<open, key2id, id2key, tag2ids, pending, nextId, nReopen>>
+  /\ UNCHANGED <<open, key2id, id2key, tag2ids, pending, nextId, nReopen>> /\ Same
   /\ Log("ClearCache", <<>>, <<>>)
 
 \* Table.MustClose flushes pending items; the caches die with the process
 Close ==
   /\ open /\ nReopen < MaxReopen
   /\ open' = FALSE /\ pending' = {} /\ cache' = {}
-  /\ UNCHANGED <<key2id, id2key, tag2ids, nextId, nReopen>>
+  /\ UNCHANGED <<key2id, id2key, tag2ids, nextId, nReopen>> /\ Same
   /\ Log("Close", <<>>, <<>>)
 
 \* a start takes a larger logical clock from the meta service; the sequence restarts
@@ -360,25 +440,53 @@ Reopen ==
   /\ open' = TRUE /\ nReopen' = nReopen + 1
   /\ nextId' = IF "idgen_restart" \in Dev THEN [nextId EXCEPT !.seq = 0]
                ELSE [clock |-> nextId.clock + 1, seq |-> 0]
-  /\ UNCHANGED <<key2id, id2key, tag2ids, pending, cache>>
+  /\ UNCHANGED <<key2id, id2key, tag2ids, pending, cache>> /\ Same
   /\ Log("Reopen", <<>>, <<>>)
 
-\* One search request = a batch of (measurement, predicate); expectations for both entry paths.
-KeysOf(ids) == SetToSeq(ShowSeries(ids))
+\* One search request = a SEQUENCE of (measurement, predicate) served one after the other by the same
+\* process (the same pooled searchers); the expectation of each is its own function of (contents, predicate),
+\* whatever ran before it. lv = the expectation of every leaf of the tree searched on its own (the replay runs
+\* them to locate a divergence; they are searches like any other).
+RECURSIVE LeavesOfPred(_)
+LeavesOfPred(p) ==
+  CASE p[1] = "P" -> LeavesOfPred(p[2])
+    [] p[1] \in {"AND", "OR"} -> LeavesOfPred(p[2]) \cup LeavesOfPred(p[3])
+    [] p[1] = "TRUE" -> {}
+    [] OTHER -> {p}
+OneLeaf(m, l) ==
+  LET want == Search(Dev, "sel", m, l)
+  IN [p |-> l, ids |-> FullIds(want), part |-> PartOf(want), dsel |-> Predictions("sel", m, l)]
 OneSearch(q) ==
   LET want == Search(Dev, "show", q.m, q.p)
-  IN [m |-> q.m, p |-> q.p, ids |-> want, keys |-> KeysOf(want),
-      tk |-> TagKeysOf(want), tv |-> [x \in TKeys |-> TagValuesOf(want, x)],
-      dshow |-> Predictions("show", q.m, q.p), dsel |-> Predictions("sel", q.m, q.p)]
+  IN [m |-> q.m, p |-> q.p, ids |-> FullIds(want), part |-> PartOf(want),
+      tk |-> TagKeysOf(want), tv |-> [x \in TKeys |-> TagValuesOf(want, x)], tvn |-> XValuesOf(want),
+      dshow |-> Predictions("show", q.m, q.p), dsel |-> Predictions("sel", q.m, q.p),
+      lv |-> IF q.p[1] \in {"AND", "OR", "P"} THEN SetToSeq({OneLeaf(q.m, l) : l \in LeavesOfPred(q.p)}) ELSE <<>>]
+
+\* what the pooled searcher carries after having served p (SELECT path). The design (tagFilter.Init) clears
+\* the flag on every use, so it reflects the LAST search only -- and no result reads it before it is rewritten.
+RECURSIVE HasEmptyRe(_)
+HasEmptyRe(p) ==
+  CASE p[1] = "P" -> HasEmptyRe(p[2])
+    [] p[1] \in {"AND", "OR"} -> HasEmptyRe(p[2]) \/ HasEmptyRe(p[3])
+    [] p[1] \in {"=~", "!~"} -> p[3] \in EmptyOK
+    [] OTHER -> FALSE
+RECURSIVE HasRe(_)
+HasRe(p) ==
+  CASE p[1] = "P" -> HasRe(p[2])
+    [] p[1] \in {"AND", "OR"} -> HasRe(p[2]) \/ HasRe(p[3])
+    [] OTHER -> p[1] \in {"=~", "!~"}
+FlagAfter(f, p) == IF "stale_allmatch_flag" \in Dev THEN f \/ HasEmptyRe(p)       \* set, never cleared
+                   ELSE IF HasRe(p) THEN HasEmptyRe(p) ELSE f
+RECURSIVE FlagAfterAll(_, _)
+FlagAfterAll(f, qs) == IF qs = <<>> THEN f ELSE FlagAfterAll(FlagAfter(f, Head(qs).p), Tail(qs))
 
 SearchBatch(qs) ==
   /\ open /\ pending = {}          \* the harness makes new series searchable first (allowed lag)
-  /\ UNCHANGED <<open, key2id, id2key, tag2ids, pending, cache, nextId, nReopen>>
+  /\ UNCHANGED <<open, key2id, id2key, tag2ids, pending, cache, nextId, nReopen, mult>>
+  /\ sflag' = FlagAfterAll(sflag, qs)
   /\ Log("Search", <<>>, [i \in 1..Len(qs) |-> OneSearch(qs[i])])
 
-\* overridden by the cfg files
-CreateChoices == RawKeys
-BatchChoices  == {}
 
 Next ==
   /\ Len(hist) < Depth
@@ -393,7 +501,8 @@ Spec == Init /\ [][Next]_vars
 
 -----------------------------------------------------------------------------
 \* ---- invariants ------------------------------------------------------------
-TypeOK == /\ open \in BOOLEAN
+TypeOK == /\ open \in BOOLEAN /\ sflag \in BOOLEAN
+          /\ DOMAIN mult = AllIds /\ \A id \in AllIds : mult[id] \in Mults
           /\ pending \subseteq AllIds
           /\ \A it \in key2id : it[1] \in RawKeys /\ it[1] = Norm(it[1])
 
@@ -415,11 +524,20 @@ SearchExact ==
      /\ Search(Dev, "show", m, p) = Brute(m, p)
      /\ (Dev = {} \/ Search(Dev, "sel", m, p) = Brute(m, p))    \* the paths differ under deviations only
 
+\* History independence, stated on its own: whatever the pooled searcher carries over from earlier
+\* searches, the result is the same (so a search is a function of the index contents and the predicate).
+HistoryIndependent ==
+  \A m \in Msts : \A p \in CheckPreds : \A path \in {"show", "sel"} :
+     SearchF(Dev, path, m, p, TRUE) = SearchF(Dev, path, m, p, FALSE)
+
 \* listings without a condition report exactly what was written (the tag-value listing reads the
-\* tag->ids items directly: searchTagValuesBySingleKey)
+\* tag->ids items directly: searchTagValuesBySingleKey); listings WITH a condition report exactly the
+\* values carried by the series the condition selects, however many members share a value
 ListingsExact ==
   \A m \in Msts :
-     /\ AllM(m) = Searchable(m)
+     /\ AllM(m) = Conc(Searchable(m))
      /\ \A x \in TKeys :
-          {it[3] : it \in {y \in Flushed : y[1] = m /\ y[2] = x}} = TagValuesOf(Searchable(m), x)
+          /\ {it[3] : it \in {y \in Flushed : y[1] = m /\ y[2] = x}} = TagValuesOf(Conc(Searchable(m)), x)
+          /\ \A p \in ListPreds :
+               CondTagValues(Dev, m, x, Brute(m, p)) = TagValuesOf(Brute(m, p), x)
 =============================================================================
